@@ -1,5 +1,5 @@
 ENTRY = dict(
-    runner="C23", pkg="./cmd/c23", corr=["Corr.C23Corr"], n=dict(quick=240, thorough=6000), runner_timeout=3000,
+    runner="C23", pkg="./cmd/c23", corr=["Corr.C23Corr"], n=dict(quick=200, thorough=6000), runner_timeout=3000,
     rule="UQUICConn (4 TLS 1.3-only custom QUIC specs with quic_transport_parameters, HelloGolang, 3 predefined non-QUIC ids) "
          "paired with the package's QUICServer; CRYPTO data delivered in random chunks in random client/server order; one of 20 "
          "injections per run (none, HRR via server CurvePreferences, no ServerName, MinVersion below 1.3, unbuildable hello, "
